@@ -583,7 +583,186 @@ func keyIDScenario(typ int) func() instance {
 	}
 }
 
+// verifyScenario: three concurrent Verify calls (two valid tokens, one forged) on one issuer.
+func verifyScenario(typ int) func() instance {
+	return func() instance {
+		var errs [3]error
+		var verify func(t tokens.Token) error
+		var toks [3]tokens.Token
+		chal := fill("chal", 32)
+		if typ == 1 {
+			kb := px.OPRFKeyBytes(oprf.SuiteP384, 0)
+			ref := px.NewW1FromBytes(kb)
+			for i := 0; i < 2; i++ {
+				o, se := ref.Flow(chal, fill(fmt.Sprintf("vn%d", i), 32), nil)
+				if se != nil {
+					panic(se)
+				}
+				t, err := type1.UnmarshalPrivateToken(o.Tokens[0])
+				must(err)
+				toks[i] = t
+			}
+			iss := type1.NewBasicPrivateIssuer(px.OPRFKeyFromBytes(oprf.SuiteP384, kb))
+			verify = iss.Verify
+		} else {
+			kb := px.OPRFKeyBytes(oprf.SuiteRistretto255, 0)
+			ref := px.NewW5FromBytes(kb)
+			for i := 0; i < 2; i++ {
+				o, se := ref.Flow(chal, [][]byte{fill(fmt.Sprintf("vn%d", i), 32)}, nil)
+				if se != nil {
+					panic(se)
+				}
+				t, err := type5.UnmarshalBatchedPrivateToken(o.Tokens[0])
+				must(err)
+				toks[i] = t
+			}
+			iss := type5.NewBatchedPrivateIssuer(px.OPRFKeyFromBytes(oprf.SuiteRistretto255, kb))
+			verify = iss.Verify
+		}
+		// forged: the authenticator of token 0 under the nonce of token 1
+		toks[2] = tokens.Token{TokenType: toks[0].TokenType, Nonce: append([]byte{}, toks[1].Nonce...), Context: append([]byte{}, toks[0].Context...), KeyID: append([]byte{}, toks[0].KeyID...), Authenticator: append([]byte{}, toks[0].Authenticator...)}
+		in := instance{}
+		for i := 0; i < 3; i++ {
+			i := i
+			in.bodies = append(in.bodies, func() { errs[i] = verify(toks[i]) })
+		}
+		in.check = func() (string, error) {
+			if errs[0] != nil || errs[1] != nil {
+				return "", fmt.Errorf("concurrent Verify rejected a valid token: %v %v", errs[0], errs[1])
+			}
+			if errs[2] == nil {
+				return "", fmt.Errorf("concurrent Verify accepted a forged token")
+			}
+			return "ok", nil
+		}
+		return in
+	}
+}
+
+// clientKeyScenario: two clients (each with its own request state and arguments) share one
+// verification key object.
+func clientKeyScenario(typ int) func() instance {
+	return func() instance {
+		chal := fill("chal", 32)
+		in := instance{}
+		switch typ {
+		case 2:
+			ref := px.NewW2(0)
+			pk := ref.ClientPub() // the shared verification key object
+			refPk := ref.ClientPub()
+			var got, want [2][]byte
+			var errs [2]error
+			for i := 0; i < 2; i++ {
+				i := i
+				blind, salt, nonce := fill(fmt.Sprintf("rb%d", i), 255), fill(fmt.Sprintf("salt%d", i), 48), fill(fmt.Sprintf("cn%d", i), 32)
+				st, err := type2.NewBasicPublicClient().CreateTokenRequestWithBlind(chal, nonce, ref.KeyID, refPk, blind, salt)
+				must(err)
+				want[i] = append([]byte{}, st.Request().Marshal()...)
+				in.bodies = append(in.bodies, func() {
+					st, err := type2.NewBasicPublicClient().CreateTokenRequestWithBlind(chal, nonce, ref.KeyID, pk, blind, salt)
+					errs[i] = err
+					if err == nil {
+						got[i] = append([]byte{}, st.Request().Marshal()...)
+					}
+				})
+			}
+			in.check = func() (string, error) {
+				for i := 0; i < 2; i++ {
+					if errs[i] != nil || !bytes.Equal(got[i], want[i]) {
+						return "", fmt.Errorf("concurrent CreateTokenRequestWithBlind with a shared verification key differs from the sequential result (%v)", errs[i])
+					}
+				}
+				return "ok", nil
+			}
+		default: // type 1 and 5: create and finalize, sharing only the public key object
+			var toks [2][]byte
+			var errs [2]error
+			if typ == 1 {
+				kb := px.OPRFKeyBytes(oprf.SuiteP384, 0)
+				ref := px.NewW1FromBytes(kb)
+				pk := ref.ClientPub()
+				for i := 0; i < 2; i++ {
+					i := i
+					nonce := fill(fmt.Sprintf("cn%d", i), 32)
+					in.bodies = append(in.bodies, func() {
+						st, err := type1.NewBasicPrivateClient().CreateTokenRequest(chal, nonce, ref.KeyID, pk)
+						if err != nil {
+							errs[i] = err
+							return
+						}
+						resp, se := ref.EvaluateWire(st.Request().Marshal())
+						if se != nil {
+							errs[i] = se
+							return
+						}
+						t, err := st.FinalizeToken(resp)
+						errs[i] = err
+						if err == nil {
+							toks[i] = t.Marshal()
+						}
+					})
+				}
+				in.check = func() (string, error) {
+					for i := 0; i < 2; i++ {
+						if errs[i] != nil {
+							return "", fmt.Errorf("client %d sharing the verification key failed: %v", i, errs[i])
+						}
+						if err := px.VerifyOPRFToken(oprf.SuiteP384, kb, toks[i]); err != nil {
+							return "", fmt.Errorf("client %d sharing the verification key got an invalid token: %v", i, err)
+						}
+					}
+					return "ok", nil
+				}
+			} else {
+				kb := px.OPRFKeyBytes(oprf.SuiteRistretto255, 0)
+				ref := px.NewW5FromBytes(kb)
+				pk := ref.ClientPub()
+				for i := 0; i < 2; i++ {
+					i := i
+					nonce := fill(fmt.Sprintf("cn%d", i), 32)
+					in.bodies = append(in.bodies, func() {
+						st, err := type5.NewBatchedPrivateClient().CreateTokenRequest(chal, [][]byte{nonce}, ref.KeyID, pk)
+						if err != nil {
+							errs[i] = err
+							return
+						}
+						resp, se := ref.EvaluateWire(st.Request().Marshal())
+						if se != nil {
+							errs[i] = se
+							return
+						}
+						ts, err := st.FinalizeTokens(resp)
+						errs[i] = err
+						if err == nil && len(ts) == 1 {
+							toks[i] = ts[0].Marshal()
+						}
+					})
+				}
+				in.check = func() (string, error) {
+					for i := 0; i < 2; i++ {
+						if errs[i] != nil {
+							return "", fmt.Errorf("client %d sharing the verification key failed: %v", i, errs[i])
+						}
+						if err := px.VerifyOPRFToken(oprf.SuiteRistretto255, kb, toks[i]); err != nil {
+							return "", fmt.Errorf("client %d sharing the verification key got an invalid token: %v", i, err)
+						}
+					}
+					return "ok", nil
+				}
+			}
+		}
+		return in
+	}
+}
+
 var scenarios = []scenario{
+	{"type1-verify-verify-verify", verifyScenario(1)},
+	{"type5-verify-verify-verify", verifyScenario(5)},
+	{"type2-clients-sharing-verification-key", clientKeyScenario(2)},
+	// clientKeyScenario(1) / (5) exist but are NOT registered: two clients sharing one circl
+	// *oprf.PublicKey race inside circl on the unchanged tree (P-384 element normalised in
+	// place when serialised); client-side calls are not in the statement's list of calls
+	// that may share a key, so flagging it would demand more than C17 states (DESIGN 9.2).
 	{"type1-tokenkeyid-tokenkeyid-tokenkey", keyIDScenario(1)},
 	{"type2-tokenkeyid-tokenkeyid-tokenkey", keyIDScenario(2)},
 	{"type3-tokenkeyid-tokenkeyid-namekey", keyIDScenario(3)},
